@@ -673,6 +673,13 @@ def gen_family(rng, force=(), forbid=(), n_masters=None, max_glyphs=14, p_sparse
         cand = [n for n, _, r in roster if r in ("base", "alt", "mark_top", "mark_bottom", "composite")
                 and n not in protected and n != ".notdef"]
         rng.shuffle(cand)
+        # prefer (half of the time) non-export glyphs that other, exported glyphs are named
+        # after or built from: 'A' for 'A.comp0' / 'A.alt' / 'A_V' - name derivation and
+        # decomposition then see a different glyph set before and after the pruning
+        stems = [n for n in cand if any(o != n and (o.startswith(n + ".") or n in o.split(".")[0].split("_"))
+                                        for o, _, _ in roster)]
+        if stems and rng.random() < 0.5:
+            cand = stems + [n for n in cand if n not in stems]
         if cand:
             lib["public.skipExportGlyphs"] = cand[: rng.randint(1, min(2, len(cand)))]
     layers = {}
